@@ -1,11 +1,12 @@
 ---- MODULE MC_Joins ----
 EXTENDS Joins
-c_Dataset == {"d1", "d2", "d3", "d4"}
+c_Dataset == {"d1", "d2", "d3", "d4", "d5"}
 c_Table == [d \in c_Dataset |->
     CASE d = "d1" -> [p |-> <<1, 1, 2>>, q |-> <<2, 3, 3>>]
       [] d = "d2" -> [p |-> <<1, 2, 3>>, q |-> <<3, 3, 1>>]
       [] d = "d3" -> [p |-> <<2, 2, 1>>, q |-> <<1, 3, 2>>, t |-> <<11, 12, 13>>]     \* t is stored as text: equals no numeric key
-      [] d = "d4" -> [p |-> <<3, 1, 1>>, q |-> <<2, 2, 3>>]]
+      [] d = "d4" -> [p |-> <<3, 1, 1>>, q |-> <<2, 2, 3>>]
+      [] d = "d5" -> [p |-> <<1, 3, 1>>, q |-> <<3, 1, 1>>]]          \* keys 1 and 3 only (stored narrower than d2 in one variant)
 J(id, a, ca, b, cb) == [id |-> id, a |-> a, ca |-> ca, b |-> b, cb |-> cb]
 c_Menu == {
     J("J1", "d1", <<"p">>, "d2", <<"p">>),
@@ -16,7 +17,8 @@ c_Menu == {
     J("J6", "d3", <<"p", "q">>, "d4", <<"p">>),
     J("J7", "d4", <<"q">>, "d1", <<"p">>),
     J("J8", "d2", <<"p", "q">>, "d4", <<"q", "p">>),
-    J("J9", "d2", <<"p">>, "d3", <<"p", "t">>) }      \* one key against a numeric and a text column
+    J("J9", "d2", <<"p">>, "d3", <<"p", "t">>),
+    J("J10", "d5", <<"p", "q">>, "d2", <<"p", "q">>) }      \* one key against a numeric and a text column
 c_Sel == {[src |-> "d1", sel |-> {}], [src |-> "d1", sel |-> {1}], [src |-> "d1", sel |-> {2, 3}],
           [src |-> "d2", sel |-> {2}], [src |-> "d3", sel |-> {1, 3}], [src |-> "d4", sel |-> {1, 2, 3}]}
 view == jvars
